@@ -92,8 +92,10 @@ func HasEOF(r io.ReaderAt) (bool, error) {
 	}
 
 	b := make([]byte, len(magicBlock))
-	_, err := r.ReadAt(b, size-int64(len(magicBlock)))
-	if err != nil {
+	n, err := r.ReadAt(b, size-int64(len(magicBlock)))
+	if err != nil && (err != io.EOF || n != len(b)) {
+		// An io.ReaderAt may return io.EOF together with
+		// the last len(b) bytes of its input.
 		return false, err
 	}
 	for i, c := range b {
